@@ -17,10 +17,11 @@ import (
 	"verifharness/amm"
 )
 
-// tickAfter: the pool's tick after an exact-in swap of amt (discarded context); ok = swap succeeded.
-func (r *runner) tickAfter(ctx sdk.Context, p amm.PoolInfo, denomIn int, amt *big.Int) (int64, bool) {
+// tickAfter: the pool's tick after a swap of amt (exact in: amt of the input denom; exact out: amt of
+// the output denom), in a discarded context; ok = swap succeeded.
+func (r *runner) tickAfter(ctx sdk.Context, p amm.PoolInfo, exactIn bool, denomIn int, amt *big.Int) (int64, bool) {
 	c, _ := ctx.CacheContext()
-	if _, err := r.w.Exec(c, p, swapOp(3, true, denomIn, amt, "")); err != nil {
+	if _, err := r.w.Exec(c, p, swapOp(3, exactIn, denomIn, amt, "")); err != nil {
 		return 0, false
 	}
 	return r.curTick(c, p), true
@@ -29,6 +30,11 @@ func (r *runner) tickAfter(ctx sdk.Context, p amm.PoolInfo, denomIn int, amt *bi
 // swapIntoBucket commits an exact-in swap after which the current tick is `target` (price inside
 // [target, target+1)); false if no such amount was found.
 func (r *runner) swapIntoBucket(ctx sdk.Context, p amm.PoolInfo, target int64, tag string) bool {
+	return r.swapToBucket(ctx, p, target, true, tag)
+}
+
+// swapToBucket: the same with an exact-in or an exact-out swap.
+func (r *runner) swapToBucket(ctx sdk.Context, p amm.PoolInfo, target int64, exactIn bool, tag string) bool {
 	cur := r.curTick(ctx, p)
 	if cur == target {
 		return true
@@ -47,8 +53,10 @@ func (r *runner) swapIntoBucket(ctx sdk.Context, p amm.PoolInfo, target int64, t
 	lo, hi := big.NewInt(0), big.NewInt(1000)
 	found := false
 	for i := 0; i < 120; i++ {
-		t, ok := r.tickAfter(ctx, p, denomIn, hi)
+		t, ok := r.tickAfter(ctx, p, exactIn, denomIn, hi)
 		if !ok {
+			// more than the pool can fill: the target lies between the last amount that worked and this one
+			found = lo.Sign() > 0
 			break
 		}
 		if beyond(t) {
@@ -59,12 +67,15 @@ func (r *runner) swapIntoBucket(ctx sdk.Context, p amm.PoolInfo, target int64, t
 		hi.Mul(hi, big.NewInt(2))
 	}
 	if !found {
+		// no amount gets there: keep the attempt as an observed step (the model decides whether it should
+		// have worked) and let the caller go on
 		r.st.Count("swap-into-bucket:unreachable")
+		r.commit(ctx, p, swapOp(3, exactIn, denomIn, new(big.Int).Set(hi), tag+":bucket-not-reached"))
 		return false
 	}
 	for i := 0; i < 200; i++ {
-		if t, ok := r.tickAfter(ctx, p, denomIn, hi); ok && t == target {
-			r.commit(ctx, p, swapOp(3, true, denomIn, new(big.Int).Set(hi), tag))
+		if t, ok := r.tickAfter(ctx, p, exactIn, denomIn, hi); ok && t == target {
+			r.commit(ctx, p, swapOp(3, exactIn, denomIn, new(big.Int).Set(hi), tag))
 			pool, _, _ := r.w.K.GetPool(ctx, p.ID)
 			r.st.Count("swap-into-bucket:landed")
 			r.st.Nontriv(fmt.Sprintf("bucket/%d/%d/%s", p.ID, target, pool.CurrentSqrtPrice))
@@ -75,7 +86,7 @@ func (r *runner) swapIntoBucket(ctx sdk.Context, p amm.PoolInfo, target int64, t
 		if mid.Cmp(lo) == 0 {
 			break
 		}
-		t, ok := r.tickAfter(ctx, p, denomIn, mid)
+		t, ok := r.tickAfter(ctx, p, exactIn, denomIn, mid)
 		switch {
 		case ok && t == target:
 			hi.Set(mid)
@@ -86,6 +97,7 @@ func (r *runner) swapIntoBucket(ctx sdk.Context, p amm.PoolInfo, target int64, t
 		}
 	}
 	r.st.Count("swap-into-bucket:not-found")
+	r.commit(ctx, p, swapOp(3, exactIn, denomIn, new(big.Int).Set(hi), tag+":bucket-not-found"))
 	return false
 }
 
@@ -117,7 +129,8 @@ func (r *runner) scenarioBoundary(ctx sdk.Context, maxOrders int) error {
 	r.commit(ctx, p, create(2, -160, -80, bi("0"), bi("2000000"), "boundary/C-upper-is-A-lower"))
 	for _, target := range []int64{40, 39, -80, -81} {
 		if !r.swapIntoBucket(ctx, p, target, fmt.Sprintf("boundary/swap-into-bucket-%d", target)) {
-			return fmt.Errorf("boundary scenario: bucket %d not reached", target)
+			r.st.Count("scenario-step-skipped:boundary")
+			continue
 		}
 		tag := fmt.Sprintf("boundary/at-%d/", target)
 		if a, ok := r.findPos(ctx, p, -80, 40); ok {
